@@ -39,7 +39,13 @@ EditorFails(ev) ==
     \cup (IF ev.post.aux # PreOf(ev).aux THEN {"argument_container_changed"} ELSE {})
     \cup (IF ev.post.glob.rng # PreOf(ev).glob.rng THEN {"caller_random_state_changed"} ELSE {})
 
+(* cls = "R": the same query on the same seed annotation in two fresh interpreters that evaluated the other queries in     *)
+(* opposite orders (ev.ref: seeds and calls in table order, ev.res: reversed) - a process-wide cache or memo that makes an  *)
+(* answer depend on what was asked before shows here whatever the order inside the driver's own workers                    *)
+OrderFails(ev) == IF ev.res # ev.ref THEN {"fresh_process_answer_depends_on_the_queries_it_answered_before"} ELSE {}
+
 Fails(ev) ==
+    IF ev.cls = "R" THEN OrderFails(ev) ELSE
     (IF CallClass(ev.call) # ev.cls THEN {"MACHINERY_call_class_mismatch"} ELSE {})
     \cup (IF ev.step > 1 /\ cur = <<>> THEN {"MACHINERY_trace_gap"} ELSE {})
     \cup (IF ev.cls = "Q" THEN QueryFails(ev) ELSE EditorFails(ev))
@@ -48,9 +54,9 @@ Dev(ev) == ""
 Init == l = 1 /\ cur = <<>> /\ memo = {} /\ ResetCounters
 Next == /\ l <= NEvents
         /\ LET f == Fails(Events[l]) IN Record(Events[l], MkVerdict(f, IF f = {} THEN "" ELSE Dev(Events[l])))
-        /\ cur' = Events[l].edited        \* total validator: adopt the logged state and go on
+        /\ cur' = (IF Events[l].cls = "R" THEN <<>> ELSE Events[l].edited)       \* total validator: adopt the logged state and go on
         /\ memo' = LET ev == Events[l]  old == IF ev.step = 1 THEN {} ELSE memo IN
-                   IF ev.cls = "E" THEN {} ELSE old \cup {<<ev.call, ev.res>>}
+                   IF ev.cls \in {"E", "R"} THEN {} ELSE old \cup {<<ev.call, ev.res>>}
         /\ l' = l + 1
 Spec == Init /\ [][Next]_<<l, cur, memo>>
 Post == PrintT(Totals) /\ TLCGet(1) + TLCGet(2) + TLCGet(3) = NEvents
